@@ -17,6 +17,14 @@ TReset ==
   /\ GiSetUp(Tr[l].dim, Tr[l].R, Tr[l].lo, Tr[l].hi, Tr[l].nd,
              [a \in 1..Tr[l].dim |-> Tr[l].c0[a] \div Tr[l].R], Tr[l].ncells)
   /\ o' = <<>> /\ e' = <<>> /\ oIdx' = <<>> /\ eIdx' = <<>> /\ cell' = <<>> /\ tNum' = <<>> /\ k' = 0 /\ active' = FALSE
+\* the caster is pointed at another grid (setGridIndexMapping) after use: origin / end must be set again before the next cast
+TReGrid ==
+  /\ IsEvent("regrid")
+  /\ Tr[l].exact
+  /\ \A a \in 1..Tr[l].dim : Tr[l].c0[a] % Tr[l].R = 0
+  /\ GiSetUp(Tr[l].dim, Tr[l].R, Tr[l].lo, Tr[l].hi, Tr[l].nd,
+             [a \in 1..Tr[l].dim |-> Tr[l].c0[a] \div Tr[l].R], Tr[l].ncells)
+  /\ active' = FALSE /\ UNCHANGED <<o, e, oIdx, eIdx, cell, tNum, k>>
 TIndex ==
   /\ IsEvent("index") /\ UNCHANGED <<givars, rcvars>>
   /\ \A a \in Axes : /\ Tr[l].idx[a] \in Index1ND(a, Tr[l].p[a])
@@ -24,7 +32,7 @@ TIndex ==
                      /\ 2 * Abs(Tr[l].p[a] - Centre1(a, Tr[l].idx[a])) <= R
 TCentre ==
   /\ IsEvent("centre") /\ UNCHANGED <<givars, rcvars>>
-  /\ Tr[l].exact /\ \A a \in Axes : Tr[l].c[a] = Centre1(a, Tr[l].kk[a])
+  /\ Tr[l].exact /\ \A a \in Axes : Tr[l].c[a] = Centre1(a, Tr[l].kk[a]) /\ Tr[l].tab[a] = Tr[l].c[a]      \* both accessors
 TSetOrigin == IsEvent("setOrigin") /\ SetOrigin(Tr[l].p, Tr[l].idx) /\ UNCHANGED givars
 TSetEnd    == IsEvent("setEnd") /\ SetEnd(Tr[l].p, Tr[l].idx) /\ Tr[l].first = cell' /\ UNCHANGED givars
 TStep      == /\ IsEvent("step") /\ UNCHANGED givars
@@ -33,7 +41,7 @@ TStep      == /\ IsEvent("step") /\ UNCHANGED givars
 \* the cast returned exactly L1 + 1 cells, and the same cells as a freshly constructed caster
 TEndCast   == /\ IsEvent("endCast") /\ UNCHANGED <<givars, rcvars>>
               /\ (IF ~active THEN FALSE ELSE k = L1) /\ Tr[l].n = L1 + 1 /\ Tr[l].same
-TraceNext == TReset \/ TIndex \/ TCentre \/ TSetOrigin \/ TSetEnd \/ TStep \/ TEndCast
+TraceNext == TReGrid \/ TReset \/ TIndex \/ TCentre \/ TSetOrigin \/ TSetEnd \/ TStep \/ TEndCast
 TraceSpec == TraceInit /\ [][TraceNext]_tvars
 ConstructorOK == Constructed(first, ncells)
 TraceAccepted == TLCGet("stats").diameter - 1 = Len(Tr)
